@@ -116,6 +116,10 @@ def flow_col_atol(scn, ref, times):
                 m = max(m, 1e-4)
             for i in ids:
                 out[i] = m
+    # the reported demand of a tank or reservoir is the net flow of its links: it carries the sum of their slacks
+    for n in scn['nodes']:
+        if n['type'] in ('T', 'R'):
+            out[('node', n['id'])] = sum(out[l['id']] for l in scn['links'] if n['id'] in (l['a'], l['b']))
     return out
 
 
@@ -199,6 +203,8 @@ def compare_tables(res, ref, times, rtol=1e-6, atol=1e-7, keys=None, exact_keys=
                 at, rt = (atol, rtol) if not slack or k not in slack else slack[k]
                 if col_atol is not None and k == 'flowrate':
                     at = np.array([max(at, col_atol.get(cn, at)) for cn in cols])[None, :]
+                elif col_atol is not None and k == 'demand':
+                    at = np.array([max(at, col_atol.get(('node', cn), at)) for cn in cols])[None, :]
                 bad = np.where(np.abs(x - y) > at + rt * np.abs(y))
             if len(bad[0]):
                 i, j = int(bad[0][0]), int(bad[1][0])
